@@ -1144,6 +1144,13 @@ impl MachineState {
                 let addr = self.store(self[r]);
                 self.occurs_check.bind(self, Ref::heap_cell(h), addr);
 
+                // a failed occurs check is acted on here, as in read mode,
+                // not after the next instruction has run.
+                if self.fail {
+                    self.backtrack();
+                    return;
+                }
+
                 // the former code of this match arm was:
 
                 // let addr = self.store(self[reg]);
